@@ -35,8 +35,21 @@ def expected_lines(steps, ws):
 ALIASED_UNION_MODEL = """O: int?
 U1: [int, string]
 UN: [null, int, string]
+Es: !enum
+  base: size
+  values: [p, q]
+Fs: !flags
+  base: size
+  values: [fa, fb]
+Sz: size
+Ez: !enum
+  base: Sz
+  values: [p, q]
 R: !record
   fields:
+    es: Es
+    fs: Fs
+    ez: Ez
     a: [O, string]
     b: [null, O, string]
     c: [null, U1, float]
@@ -51,14 +64,15 @@ P: !protocol
 """
 ALIASED_UNION_DRIVER = r"""
 import sys, io, json
+import numpy as np
 sys.path.insert(0, sys.argv[1])
 import au as t
 G=t.U1OrBool; I=t.OOrBool; A=t.OOrString; U=t.U1OrFloat32; N=t.UNOrFloat32
 vals = [
- t.R(a=A.O(None), b=None, c=None, d=N.UN(None), e=None, g=G.Bool(True), h=None, i=[]),
- t.R(a=A.O(3), b=A.O(None), c=U.U1(t.U1.Int32(1)), d=N.UN(t.UN.Int32(4)), e=N.UN(None), g=G.U1(t.U1.Int32(9)), h=G.U1(t.U1.String('w')), i=[I.O(None), I.O(5), I.Bool(False)]),
- t.R(a=A.String("x"), b=A.O(7), c=U.Float32(1.5), d=N.Float32(0.5), e=N.UN(t.UN.String("s")), g=G.U1(t.U1.String('k')), h=G.Bool(False), i=[I.Bool(True)]),
- t.R(a=A.String("x"), b=A.String("y"), c=U.U1(t.U1.String("q")), d=N.UN(t.UN.String("z")), e=N.Float32(2.0), g=G.Bool(False), h=G.U1(t.U1.Int32(-1)), i=[I.O(0)]),
+ t.R(es=t.Es.P, fs=t.Fs(0), ez=t.Ez.Q, a=A.O(None), b=None, c=None, d=N.UN(None), e=None, g=G.Bool(True), h=None, i=[]),
+ t.R(es=t.Es.Q, fs=t.Fs.FA | t.Fs.FB, ez=t.Ez.P, a=A.O(3), b=A.O(None), c=U.U1(t.U1.Int32(1)), d=N.UN(t.UN.Int32(4)), e=N.UN(None), g=G.U1(t.U1.Int32(9)), h=G.U1(t.U1.String('w')), i=[I.O(None), I.O(5), I.Bool(False)]),
+ t.R(es=t.Es.Q, fs=t.Fs.FB, ez=t.Ez.P, a=A.String("x"), b=A.O(7), c=U.Float32(1.5), d=N.Float32(0.5), e=N.UN(t.UN.String("s")), g=G.U1(t.U1.String('k')), h=G.Bool(False), i=[I.Bool(True)]),
+ t.R(es=t.Es.P, fs=t.Fs.FA, ez=t.Ez.Q, a=A.String("x"), b=A.String("y"), c=U.U1(t.U1.String("q")), d=N.UN(t.UN.String("z")), e=N.Float32(2.0), g=G.Bool(False), h=G.U1(t.U1.Int32(-1)), i=[I.O(0)]),
 ]
 out = []
 for v in vals:
